@@ -82,6 +82,14 @@ def build_scratch(dst, chan=True, btree=True):
                 return s2
             edit(rel, sub)
 
+    # std BufReader -> pass-through reader (see ghost_fs::GhostBufReader)
+    def bufr(s):
+        s2, n = re.subn(r"\bio::BufReader::with_capacity\(", "crate::kani_support::ghost_fs::GhostBufReader::with_capacity(", s)
+        if n != 1:
+            raise OverlayError("overlay does not apply: io::BufReader::with_capacity not found exactly once in src/chunk/mod.rs")
+        return s2
+    edit("src/chunk/mod.rs", bufr)
+
     # module declarations
     files = parse_harness_files()
     by_anchor = {}
